@@ -139,6 +139,16 @@ def register(reg):
         reg.add(Contract(EVF, 'EngVal.' + opname, {'self': EV, 'other': EV}, returns=Bool, globals_=G_EV, raises=REFUSE2,
                          ensures=['implies(other.uom == self.uom, result == (self.value %s other.value))' % sym],
                          canaries=['result', 'not result'], crosscheck=False))
+    # the same operators with a plain number on the right: arithmetic on the value, units untouched, nothing converted or refused
+    for opname, sym, exc in (('__add__', '+', {}), ('__sub__', '-', {}), ('__mul__', '*', {}), ('__truediv__', '/', {'ZeroDivisionError': 'other == 0'})):
+        reg.add(Contract(EVF, 'EngVal.' + opname, {'self': EV, 'other': Real}, returns=EV, globals_=G_EV, raises=exc, name='EngVal.%s[number]' % opname,
+                         ensures=['result.uom == self.uom', 'result.value == self.value %s other' % sym],
+                         canaries=['result.value == self.value'], crosscheck=False), callable_=False)
+    for opname, sym, exc in (('__iadd__', '+', {}), ('__isub__', '-', {}), ('__imul__', '*', {}), ('__itruediv__', '/', {'ZeroDivisionError': 'other == 0'})):
+        reg.add(Contract(EVF, 'EngVal.' + opname, {'self': EV, 'other': Real}, returns=EV, globals_=G_EV, raises=exc, modifies=['self.value'],
+                         name='EngVal.%s[number]' % opname,
+                         ensures=['self.uom == old(self.uom)', 'self.value == old(self.value) %s other' % sym, 'result.value == self.value and result.uom == self.uom'],
+                         canaries=['self.value == old(self.value)'], crosscheck=False), callable_=False)
     reg.add(Contract(EVF, 'EngVal.convert', {'self': EV, 'theUnits': Int}, globals_=G_EV, raises=REFUSE, modifies=['self.value', 'self.uom'],
                      ensures=['self.uom == theUnits', 'implies(theUnits == old(self.uom), self.value == old(self.value))'],
                      canaries=['self.value == old(self.value)'], crosscheck=False))
